@@ -585,3 +585,42 @@ func checkNoTypedNilReader(c *Ctx) {
 	}
 	_ = bad
 }
+
+func init() {
+	extraDebug["argsflow"] = func(p *Program) {
+		for _, fn := range p.Funcs {
+			if !isSubject(fn) || fn.Pkg == nil || !strings.HasSuffix(fn.Pkg.Pkg.Path(), "/cmd/pdfcpu") {
+				continue
+			}
+			var argsParam *ssa.Parameter
+			for _, q := range fn.Params {
+				if q.Name() == "args" && q.Type().String() == "[]string" {
+					argsParam = q
+				}
+			}
+			if argsParam == nil {
+				continue
+			}
+			eachInstr(fn, func(_ *ssa.BasicBlock, _ int, i ssa.Instruction) {
+				call, ok := i.(*ssa.Call)
+				if !ok {
+					return
+				}
+				callee := staticCallee(call)
+				if callee == nil || !strings.HasSuffix(callee.Name(), "Args") {
+					return
+				}
+				for _, a := range call.Call.Args {
+					if a.Type().String() != "[]string" {
+						continue
+					}
+					kind := "param"
+					if a != ssa.Value(argsParam) {
+						kind = fmt.Sprintf("%T", a)
+					}
+					fmt.Printf("%s\t%s\t%s\t%s\n", kind, FuncID(fn), callee.Name(), p.Pos(call.Pos()))
+				}
+			})
+		}
+	}
+}
